@@ -205,6 +205,54 @@ theorem K_real_partial (μ : Fin 6 → Mode (Cx K)) (hp : ConjPairs μ) (i j : F
 
 end real
 
+/-! ### what the energy-coefficient tensor is: the traction coefficient of the slip plane -/
+
+/-- traction of one mode on the slip plane: `Σⱼ stressCoef a i j nⱼ = −(1/(2πi)) kLbₐ Lₐᵢ`. -/
+theorem traction_coef (pi I : F) (s : Setup F) (μ : Fin 6 → Mode F) (k : Fin 6 → F)
+    (hC : ∀ i j k l, s.C i j k l = s.C j i k l) (a : Fin 6)
+    (hL : ∀ i, (μ a).L i = -(sum3 fun j => (s.nm i j + (μ a).p * s.nn i j) * (μ a).A j)) (i : Fin 3) :
+    (sum3 fun j => stressCoef pi I s μ k a i j * s.n j) = -(1 / (2 * pi * I)) * (kLb s μ k a * (μ a).L i) := by
+  have h := hL i
+  simp only [stressCoef, Setup.nm, Setup.nn, contract, mpn, sum3, Nat.cast_ofNat, Nat.cast_one] at h ⊢
+  simp only [hC 0 i, hC 1 i, hC 2 i] at h
+  linear_combination ((1 / (2 * pi * I)) * kLb s μ k a) * h
+
+/-- **the energy-coefficient tensor is the traction coefficient of the slip plane**: at a point of the slip plane at
+    distance `X` ahead of the line (`ηₐ = X` for every mode) the coded stress gives the traction
+    `σ·n = K·b / (2πX)`, with `K` the coded `K_tensor` — so `½ b·σ·n` integrated along the cut is
+    `b·K·b/(4π) · ln(R/r₀)`, the pre-logarithmic energy factor `preln`. -/
+theorem K_is_traction (pi I : F) (hpi : pi ≠ 0) (hI : I * I = -1) (s : Setup F) (μ : Fin 6 → Mode F) (k : Fin 6 → F)
+    (hC : ∀ i j k l, s.C i j k l = s.C j i k l)
+    (hL : ∀ a i, (μ a).L i = -(sum3 fun j => (s.nm i j + (μ a).p * s.nn i j) * (μ a).A j))
+    (x : Vec F) (X : F) (hX : X ≠ 0) (hx : ∀ a, eta s (μ a) x = X) (i : Fin 3) :
+    (sum3 fun j => stressAt pi I s μ k x i j * s.n j) = matVec (kTensor I μ k) s.b i / (2 * pi * X) := by
+  have hI0 : I ≠ 0 := by intro h; rw [h] at hI; simp at hI
+  have hc : -(1 / (2 * pi * I)) = I / (2 * pi) := by
+    field_simp
+    linear_combination (-1 : F) * hI
+  have t := fun a => traction_coef pi I s μ k hC a (hL a) i
+  have t0 := t 0; have t1 := t 1; have t2 := t 2; have t3 := t 3; have t4 := t 4; have t5 := t 5
+  rw [hc] at t0 t1 t2 t3 t4 t5
+  have e : matVec (kTensor I μ k) s.b i
+      = I * (kLb s μ k 0 * (μ 0).L i + kLb s μ k 1 * (μ 1).L i + kLb s μ k 2 * (μ 2).L i + kLb s μ k 3 * (μ 3).L i
+          + kLb s μ k 4 * (μ 4).L i + kLb s μ k 5 * (μ 5).L i) := by
+    simp only [matVec, kTensor, kLb, dot, sum3, sum6]; ring
+  rw [e]
+  simp only [stressAt, hx, sum3, sum6, Nat.cast_one] at *
+  linear_combination (1 / X) * (t0 + t1 + t2 + t3 + t4 + t5)
+
+/-- the same for the isotropic closed form, in the local frame: on the slip plane (`y = 0`) at distance `x` the
+    generated stress gives the traction `(K_e b_e, 0, K_s b_s) / (2πx)` with the generated `K_e`, `K_s`. -/
+theorem iso_K_is_traction {K : Type} [Field K] [CharZero K] (x nu mu b_e b_s pi : K) (hx : x ≠ 0) (hpi : pi ≠ 0)
+    (h1 : 1 - nu ≠ 0) :
+    isoStress x 0 nu mu b_e b_s pi 0 1 = isoKe mu nu * b_e / (2 * pi * x)
+    ∧ isoStress x 0 nu mu b_e b_s pi 1 1 = 0
+    ∧ isoStress x 0 nu mu b_e b_s pi 2 1 = isoKs mu nu * b_s / (2 * pi * x) := by
+  refine ⟨?_, ?_, ?_⟩
+  · simp [isoStress, isoStress_0_1, isoKe]; field_simp
+  · simp [isoStress, isoStress_1_1]
+  · simp [isoStress, isoStress_2_1, isoKs]; field_simp
+
 /-! ### covariance: rotating the whole problem rotates every result
 
   `R` is any matrix with `RᵀR = 1` (`Orth R`); the rotated problem is `rotSetup R s` (stiffness
